@@ -248,7 +248,7 @@ def run(ctx):
 
     # ---- real builds: no directive marker left anywhere --------------------------------------------------
     cfgs = [lib.Cfg('arch', 4, '4.1', 'none', True), lib.Cfg('debian', 3, '3.0', 'none', False), lib.Cfg('ubuntu', 4, '4.0', 'complain', True),
-            lib.Cfg('opensuse', 4, '4.1', 'enforce', False)]
+            lib.Cfg('opensuse', 4, '4.1', 'enforce', False), lib.Cfg('whonix', 4, '4.0', 'none', False)]       # every distribution once
     if ctx.tier == 'thorough':
         cfgs = [c for c in lib.all_cfgs() if c.mode == 'none']
 
